@@ -73,6 +73,29 @@ class Engine:
             return fp_to_float(v)
         raise TypeError(repr(v))
 
+    def _least(self, expr, v, tried=()):
+        """the smallest feasible value of an Int/Bool decision under the current solver state (v is feasible):
+        makes the exploration order, and therefore budget truncation, independent of z3's model choice"""
+        if z3.is_bool(expr):
+            if v is True and False not in tried:
+                self.solver.push()
+                self.solver.add(z3.Not(expr))
+                ok = self._check()
+                self.solver.pop()
+                return False if ok else True
+            return v
+        if not z3.is_int(expr):
+            return v
+        while True:
+            self.solver.push()
+            self.solver.add(expr < v)
+            ok = self._check()
+            if ok:
+                v = self.solver.model().eval(expr, model_completion=True).as_long()
+            self.solver.pop()
+            if not ok:
+                return v
+
     def _eq(self, expr, v):
         if z3.is_fp(expr):
             return z3.fpEQ(expr, z3.FPVal(v, expr.sort())) if v == v else z3.fpIsNaN(expr)
@@ -134,6 +157,7 @@ class Engine:
             sat = self._check()
             if sat:
                 v = self.val(self.solver.model().eval(d['expr'], model_completion=True))
+                v = self._least(d['expr'], v, d['tried'])
                 self.solver.pop()
                 self.solver.add(self._eq(d['expr'], v))
                 d['tried'].append(v)
@@ -166,11 +190,29 @@ class Engine:
             self.solver.pop()
             raise Abort()
         v = self.val(self.solver.model().eval(expr, model_completion=True))
+        v = self._least(expr, v)
         self.solver.add(self._eq(expr, v))
         self.trail.append(dict(expr=expr, tried=[v], val=v, pre=pre, label=label or _short(expr)))
         self.pos += 1
         self.stats['decisions'] += 1
         return v
+
+    def replaying(self):
+        return self.pos < len(self.trail)
+
+    def choose(self, label, build):
+        """like pick, but the z3 terms are only built when the decision is new:
+        build() -> (expr, [assumptions]).  Replayed decisions are matched by label."""
+        if self.pos < len(self.trail):
+            d = self.trail[self.pos]
+            if d['label'] != label:
+                raise Nondeterminism('decision %d: %s vs %s' % (self.pos, d['label'], label))
+            self.pos += 1
+            self.pending = []
+            return d['val']
+        expr, pre = build()
+        self.pending.extend(pre)
+        return self.pick(expr, label)
 
     def query(self, *extra):
         """satisfiability of path-condition ∧ extra (not part of the trail). model or None"""
@@ -356,12 +398,75 @@ class SymInt(_SymNum, int):
     def __rmul__(self, o): return self._arith(o, lambda a, b: b * a)
 
 
+class SymRepr(str):
+    """str(symbolic float): content is the sentinel; `'e' in text` forks on the CPython repr lemma
+    (exponent form iff finite, non-zero and |x| < 1e-4 or |x| >= 1e16)"""
+    def __new__(cls, owner):
+        o = str.__new__(cls, owner.sent)
+        o.owner = owner
+        return o
+
+    def __contains__(self, ch):
+        if ch in ('e', 'E'):
+            x = self.owner.e
+            ax = z3.fpAbs(x)
+            F = z3.Float64()
+            f = z3.And(z3.Not(z3.fpIsNaN(x)), z3.Not(z3.fpIsInf(x)), z3.Not(z3.fpIsZero(x)),
+                       z3.Or(z3.fpLT(ax, z3.FPVal(1e-4, F)), z3.fpGEQ(ax, z3.FPVal(1e16, F))))
+            return bool(ENGINE.pick(f)) if ch == 'e' else False
+        if isinstance(ch, str) and not (set(ch) & set('0123456789.-+einfa')):
+            return False          # no float repr contains such a character (e.g. XML markup tests by the serialiser)
+        raise Leak('substring test on symbolic float repr')
+
+    def __str__(self):
+        return self
+
+    def _leak(self, *a, **k):
+        raise Leak('str method on symbolic float repr')
+    split = replace = lower = upper = startswith = endswith = find = index = join = encode = strip = _leak
+    __getitem__ = __iter__ = __add__ = __radd__ = __mod__ = __mul__ = _leak
+
+
+class SymDecimal:
+    """decimal.Decimal(str(symbolic float)) as seen through DecimalShim"""
+    def __init__(self, owner):
+        self.owner = owner
+
+    def __format__(self, spec):
+        if spec == 'f':
+            return self.owner.sent_pos
+        raise Leak('Decimal format %r on symbolic float' % spec)
+
+    def __str__(self):
+        raise Leak('str(Decimal) of symbolic float')
+
+
+class DecimalShim:
+    """stands for the `decimal` module inside the module under test"""
+    def Decimal(self, x=0, *a):
+        if isinstance(x, SymRepr):
+            return SymDecimal(x.owner)
+        import decimal
+        return decimal.Decimal(x, *a)
+
+    def __getattr__(self, k):
+        import decimal
+        return getattr(decimal, k)
+
+
 class SymFloat(_SymNum, float):
     def __new__(cls, e):
         o = float.__new__(cls, 1.2345678910111213e+77)
         o.e = e
         o.sent = _sent()
+        o.sent_pos = _sent().replace('SYM', 'POS')
         return o
+
+    def __str__(self):
+        return SymRepr(self)
+
+    def __repr__(self):
+        return SymRepr(self)
 
     def __float__(self):
         return self
@@ -429,7 +534,15 @@ class SymStr(str):
     def _leak(self, *a, **k):
         raise Leak('str method on symbolic str')
     split = replace = lower = upper = startswith = endswith = find = index = join = encode = _leak
-    __getitem__ = __iter__ = __contains__ = __add__ = __radd__ = __mod__ = __mul__ = _leak
+    __getitem__ = __iter__ = __add__ = __radd__ = __mod__ = __mul__ = _leak
+
+    def __contains__(self, ch):
+        if SERIALISING and ch in ('&', '<', '>', '"', "'", '\n', '\r', '\t'):
+            return False      # xml.etree's escaping is environment: the value is handed over verbatim (escaping itself: C16)
+        raise Leak('substring test on symbolic str')
+
+
+SERIALISING = False
 
 
 def has_sentinel(x):
